@@ -41,6 +41,68 @@ def edge_clamp(ctx, crate):
                "clamp(%r) = %r, expected %r: an overshoot on one edge of a polar facet is moved to the opposite edge" % bad[0], at=b.span, kind="N")
 
 
+def switch_continuity(ctx, crate):
+    """N: where (un)proj switches between the cylindrical and the Collignon formulae the two must
+    agree, or positions next to the transition latitude do not come back within 1e-14: the switch
+    threshold is located on the extracted region test (bisection on the term, whatever its form),
+    both branch formulae are read there at five longitude offsets, and must agree within 1e-14
+    (the two formulae meet at |y| = 1, |z| = 2/3 only).  The plane threshold must also be the
+    image of the sphere threshold."""
+    import math
+    from rules.common import feval, param
+    clause = "region-switch"
+    TOL = 1e-14
+    thr = {}
+    for test, fa, fb, lo, hi in (("is_in_equatorial_region", "proj_cea", "proj_collignon", 0.1, 1.5),
+                                 ("is_in_projected_equatorial_region", "deproj_cea", "deproj_collignon", 0.1, 1.9)):
+        bt = ctx.anchor(crate, test, clause)
+        if bt is None: continue
+        key = "%s:%s==%s-at-the-switch" % (test, fa, fb)
+        e = Engine(crate); r = e.run(test); ctx.functions |= e.visited_fns
+        pn = bt.param_names()
+        f = lambda v: feval(r.ret, {param(pn[0]): v}, e) if r.returns and len(pn) == 1 else None
+        a, b = lo, hi
+        if f(a) is not True or f(b) is not False:
+            ctx.undecided(clause, key, "the region test %s is not true at %r and false at %r" % (show(r.ret)[:80] if r.returns else "?", lo, hi), at=bt.span); continue
+        while math.nextafter(a, b) < b:
+            m = (a + b) / 2
+            v = f(m)
+            if v is None: break
+            if v: a = m
+            else: b = m
+        T = a                                 # the largest value on the cylindrical side
+        thr[test] = T
+        vals = {}
+        okx = True
+        for fn in (fa, fb):
+            bb = ctx.anchor(crate, fn, clause)
+            if bb is None: okx = False; break
+            e2 = Engine(crate); r2 = e2.run(fn); ctx.functions |= e2.visited_fns
+            q = bb.param_names()[0]
+            places = [('fld', ('deref', ('p', q)), 0), ('fld', ('deref', ('p', q)), 1)]
+            outs = [r2.state.heap.get(pl, pl) for pl in places] if r2.returns else None
+            if outs is None: okx = False; break
+            vals[fn] = []
+            for x0 in (-1.0, -0.6, 0.0, 0.35, 1.0):
+                env = {places[0]: x0, places[1]: T}
+                got = [feval(o, env, e2) for o in outs]
+                if any(g is None for g in got):
+                    ctx.undecided(clause, key, "cannot read %s at (%r, %r): %s" % (fn, x0, T, [show(o)[:60] for o in outs]), at=bb.span); okx = False; break
+                vals[fn].append((x0, got))
+            if not okx: break
+        if not okx: continue
+        bad = [(x0, va, vb) for (x0, va), (_, vb) in zip(vals[fa], vals[fb]) if abs(va[0] - vb[0]) > TOL or abs(va[1] - vb[1]) > TOL]
+        ctx.report(clause, key, not bad,
+                   "switch at %r: %s and %s agree within %g at 5 longitude offsets" % (T, fa, fb, TOL) if not bad else
+                   "switch at %r: at longitude offset %r %s gives %r and %s gives %r — positions between the two formulae's meeting point and the threshold do not come back" % (T, bad[0][0], fa, bad[0][1], fb, bad[0][2]),
+                   at=bt.span, kind="N", sample={"threshold": T, "values": {k: [list(map(float, g)) for _, g in v] for k, v in vals.items()}})
+    if len(thr) == 2:
+        Tl, Ty = thr["is_in_equatorial_region"], thr["is_in_projected_equatorial_region"]
+        img = 1.5 * math.sin(Tl)
+        ctx.report(clause, "unproj-threshold==image-of-proj-threshold", abs(img - Ty) <= TOL,
+                   "plane threshold %r, image of the sphere threshold %r: %r" % (Ty, Tl, img), kind="N")
+
+
 def pole_guard(ctx, crate):
     """N: in `deproj_collignon` the longitude offset is divided by t = sqrt(3(1 - |z|)) unless t is
     below a threshold.  Where the division is skipped the returned longitude is the centre of the
@@ -116,6 +178,7 @@ def run(ctx):
     c17_table.run(ctx, ctx.crate("dbg"), tag="[dbg]")      # the dev profile keeps the debug assertions: a key that trips one has no value
     edge_clamp(ctx, crate)
     pole_guard(ctx, crate)
+    switch_continuity(ctx, crate)
     ctx.not_decided("the projection formulae, inverse property, 1e-14 accuracy (float numerics); base_cell_from_proj_coo on points exactly on a diagonal / facet seam (float ties)")
     from rules import cancellation
     cancellation.check(ctx, ctx.crate("rel"), ['proj', 'unproj', 'base_cell_from_proj_coo'], floor=8)
